@@ -193,6 +193,7 @@ pub fn two_party(case: &str, seed: u64, k: &Knobs, content: Vec<u8>) -> Scenario
         dropper: None,
         seq_start: None,
         preset_ids: vec![],
+        forget_puts: vec![],
     }
 }
 
